@@ -31,6 +31,29 @@ CLAIMED = {
    note='Trusted: Verus+Z3, vstd arithmetic lemmas, Kani/CBMC; domain assumption on the const generic P (2 <= P <= 3037000499, P prime = what valid() '
         'accepts); num_traits Zero/One impls, valid() (f64) and the p-adic solver are not under contract; exact rank/determinant/null space/solve are not decided.',
    ref='5 C18', technique=TECH + '; Kani (CBMC) loop-free harnesses for instantiated moduli'),
+ 'C02': dict(
+   text='Unbounded proof (Verus/Z3) over the real bodies of PartialDSet, SimpleDSet, collect_orbits, PartialDSym and SimpleDSym: the involution '
+        'invariant is kept by new/set (with frame), op is total (None out of range, no panic for any usize), collect_orbits builds orbit tables '
+        'constant along both operations with r >= 1 = least return time at the representative, r/v/m of BOTH symbol representations equal the same '
+        'spec functions of the tables (m = r*v, symmetric, constant on orbits, None out of range).',
+   note='Trusted: Verus+Z3, vstd, <[T]>::fill spec, derived Clone. Not decided: Traversal/orbits/orbit_reps/connected/oriented predicates '
+        '(stateful iterator over BTreeMap/VecDeque/HashSet), the default DSet::r (fold/and_then), PartialDSet::grow, termination of orbit loops; '
+        'the lift of the return-time statement from orbit representatives to every chamber is stated as spec-level lemmas only.',
+   ref='5 C02', technique=TECH),
+ 'C01': dict(
+   text='Unbounded proof (Verus/Z3) that PartialDSym::from_str, for an ARBITRARY parser result (nom is external and assumed to return any DSymSpec '
+        'whatsoever), never reaches a panic, assertion, overflow or out-of-bounds index, and that Ok(ds) implies the full symbol invariant '
+        '(involutions on 1..=size, complete, consistent orbit tables, every degree = r*v).',
+   note='Trusted: Verus+Z3, vstd; parse_dsymbol (nom grammar) external with NO assumption on its output; allocation failure not modelled. '
+        'Not decided: the print/parse round trip (Display is write!-based, the grammar is nom: neither is within the verifier).',
+   ref='5 C01', technique=TECH),
+ 'C04': dict(
+   text='Unbounded proof (Verus/Z3), generic over the DSet interface, of the real morphism body: Some(m) is a map with m[1] = img0 that commutes with '
+        'every operation and preserves every degree on all chambers it assigns; None implies that no morphism with that base image exists; '
+        'automorphisms lists exactly the successful base images. The interface contract is proved for all four concrete representations.',
+   note='Trusted: Verus+Z3, vstd. Requires img0 != 0 (0 is the code\'s unassigned marker). Not decided: totality/bijectivity of the map (needs connectivity = '
+        'Traversal), fold, is_minimal, minimal_image (congruence closure over the union-find), covers vs minimal images.',
+   ref='5 C04', technique=TECH),
 }
 
 NA = {
